@@ -3,6 +3,6 @@ package main
 func init() {
 	plans["C23"] = Plan{Pkg: pkg("C23"), Steps: []Step{
 		{Run: "TestOptionTable", Kind: "test"},
-		{Run: "TestIsolation", Quick: 24000, Thorough: 400000, QShards: 4, TShards: 16},
+		{Run: "TestIsolation", Quick: 24000, Thorough: 400000, QShards: 8, TShards: 16},
 	}}
 }
